@@ -1,6 +1,7 @@
 (* C15 - String concatenation, reversal and replacement are evaluated exactly.  Statements pinned from Proofs/StrOpsProofs.v by harness/mkprop.py. *)
 From MD Require Import Lib.Base Model.Node Model.Dec.XmlChr Model.Dec.ReLib Model.Dec.StrOps.
 From MD Require Import Proofs.EscDecProofs Proofs.StrOpsProofs.
+From MD Require Import Regex.LocalityProofs Proofs.RoundTrip Proofs.RoundTrip2.
 
 (* s[-2:0:-1] of a quoted literal is its contents reversed - for every contents, incl. empty and one byte *)
 Theorem C15_reverse_slice : forall (q q' : N) (s : bytes), rev_slice (q :: s ++ [q']) = rev s.
@@ -72,6 +73,42 @@ Print Assumptions C15_concat_nodes.
 Theorem C15_totality : forall (ty obf : label) (strip2 : bool) (data : bytes) (ms : list Backtrack.mtch), Forall (spans_ok4 data) ms -> exists nodes : list node, mapM (replace_node ty obf strip2 data) ms = Ok nodes /\ Datatypes.length nodes = Datatypes.length ms.
 Proof. exact replace_post_total. Qed.
 Print Assumptions C15_totality.
+
+(* END-TO-END ROUND TRIP with span selection by the matcher (Proofs/RoundTrip2.v): for every payload in the literal class, every neutral prefix and ANY suffix, the expression is found as ONE node with exactly its span and the decoded string as value; later nodes start after it *)
+Theorem C15_reverse_roundtrip : forall (nm : bytes) (pre : list N) (ws1 : bytes) (q : N) (p ws2 : bytes) (suf : list N), lower nm = s2b "reverse(" \/ lower nm = s2b "reversed(" -> ws_ok ws1 = true -> ws_ok ws2 = true -> is_quote q -> lit_ok q p = true -> (Datatypes.length p + Datatypes.length ws1 + Datatypes.length ws2 + 100 <= Backtrack.default_fuel)%nat -> neutral Regexes.RE_reverse_REVERSE_RE pre = true -> let form := nm ++ ws1 ++ quoted q (rev p) ++ ws2 ++ s2b ")" in let data := pre ++ form ++ suf in find_reverse data = Hang \/ (exists rest : list node, find_reverse data = Ok (Node (s2b "string") p (s2b "reverse") (blen pre) (blen pre + blen form) [] :: rest) /\ Forall (fun nd : node => blen pre + blen form <= n_st nd) rest).
+Proof. exact find_reverse_roundtrip. Qed.
+Print Assumptions C15_reverse_roundtrip.
+
+Theorem C15_strreverse_roundtrip : forall (nm : bytes) (pre : list N) (ws1 : bytes) (q : N) (p ws2 : bytes) (suf : list N), lower nm = s2b "strreverse(" -> ws_ok ws1 = true -> ws_ok ws2 = true -> is_quote q -> lit_ok q p = true -> (Datatypes.length p + Datatypes.length ws1 + Datatypes.length ws2 + 100 <= Backtrack.default_fuel)%nat -> neutral Regexes.RE_vba_STRREVERSE_RE pre = true -> let form := nm ++ ws1 ++ quoted q (rev p) ++ ws2 ++ s2b ")" in let data := pre ++ form ++ suf in find_strreverse data = Hang \/ (exists rest : list node, find_strreverse data = Ok (Node (s2b "vba.string") p (s2b "vba.reverse") (blen pre) (blen pre + blen form) [] :: rest) /\ Forall (fun nd : node => blen pre + blen form <= n_st nd) rest).
+Proof. exact find_strreverse_roundtrip. Qed.
+Print Assumptions C15_strreverse_roundtrip.
+
+(* value = the leftmost non-overlapping substitution py_replace x a b *)
+Theorem C15_replace_roundtrip : forall (nm : bytes) (pre : list N) (q1 : N) (x ws1 : bytes) (q2 : N) (a ws2 ws3 : bytes) (q3 : N) (b ws4 : bytes) (suf : list N), lower nm = s2b ".replace(" -> is_quote q1 -> is_quote q2 -> is_quote q3 -> lit_ok q1 x = true -> lit_ok q2 a = true -> lit_ok q3 b = true -> ws_ok ws1 = true -> ws_ok ws2 = true -> ws_ok ws3 = true -> ws_ok ws4 = true -> (Datatypes.length x + Datatypes.length a + Datatypes.length b + Datatypes.length ws1 + Datatypes.length ws2 + Datatypes.length ws3 + Datatypes.length ws4 + 200 <= Backtrack.default_fuel)%nat -> neutral Regexes.RE_replace_REPLACE_RE pre = true -> let form := quoted q1 x ++ nm ++ ws1 ++ quoted q2 a ++ ws2 ++ s2b "," ++ ws3 ++ quoted q3 b ++ ws4 ++ s2b ")" in let data := pre ++ form ++ suf in find_replace data = Hang \/ (exists rest : list node, find_replace data = Ok (Node (s2b "string") (py_replace x a b) (s2b "replace") (blen pre) (blen pre + blen form) [] :: rest) /\ Forall (fun nd : node => blen pre + blen form <= n_st nd) rest).
+Proof. exact find_replace_roundtrip. Qed.
+Print Assumptions C15_replace_roundtrip.
+
+Theorem C15_vba_replace_roundtrip : forall (nm : bytes) (pre : list N) (ws1 : bytes) (q1 : N) (x ws2 ws3 : bytes) (q2 : N) (a ws4 ws5 : bytes) (q3 : N) (b ws6 : bytes) (suf : list N), lower nm = s2b "replace(" -> is_quote q1 -> is_quote q2 -> is_quote q3 -> lit_ok q1 x = true -> lit_ok q2 a = true -> lit_ok q3 b = true -> ws_ok ws1 = true -> ws_ok ws2 = true -> ws_ok ws3 = true -> ws_ok ws4 = true -> ws_ok ws5 = true -> ws_ok ws6 = true -> (Datatypes.length x + Datatypes.length a + Datatypes.length b + Datatypes.length ws1 + Datatypes.length ws2 + Datatypes.length ws3 + Datatypes.length ws4 + Datatypes.length ws5 + Datatypes.length ws6 + 200 <= Backtrack.default_fuel)%nat -> neutral Regexes.RE_replace_VBA_REPLACE_RE pre = true -> let form := nm ++ ws1 ++ quoted q1 x ++ ws2 ++ s2b "," ++ ws3 ++ quoted q2 a ++ ws4 ++ s2b "," ++ ws5 ++ quoted q3 b ++ ws6 ++ s2b ")" in let data := pre ++ form ++ suf in find_vba_replace data = Hang \/ (exists rest : list node, find_vba_replace data = Ok (Node (s2b "vba.string") (py_replace x a b) (s2b "vba.replace") (blen pre) (blen pre + blen form) [] :: rest) /\ Forall (fun nd : node => blen pre + blen form <= n_st nd) rest).
+Proof. exact find_vba_replace_roundtrip. Qed.
+Print Assumptions C15_vba_replace_roundtrip.
+
+Theorem C15_powershell_replace_roundtrip : forall (nm : bytes) (pre : list N) (q1 : N) (x ws1 ws2 : bytes) (q2 : N) (a ws3 ws4 : bytes) (q3 : N) (b suf : bytes), lower nm = s2b "-replace" -> is_quote q1 -> is_quote q2 -> is_quote q3 -> lit_ok q1 x = true -> lit_ok q2 a = true -> lit_ok q3 b = true -> ws_ok ws1 = true -> ws_ok ws2 = true -> ws_ok ws3 = true -> ws_ok ws4 = true -> stop_q q3 suf = true -> (Datatypes.length x + Datatypes.length a + Datatypes.length b + Datatypes.length ws1 + Datatypes.length ws2 + Datatypes.length ws3 + Datatypes.length ws4 + 200 <= Backtrack.default_fuel)%nat -> neutral Regexes.RE_replace_POWERSHELL_REPLACE_RE pre = true -> let form := quoted q1 x ++ ws1 ++ nm ++ ws2 ++ quoted q2 a ++ ws3 ++ s2b "," ++ ws4 ++ quoted q3 b in let data := pre ++ form ++ suf in find_powershell_replace data = Hang \/ (exists rest : list node, find_powershell_replace data = Ok (Node (s2b "powershell.string") (py_replace x a b) (s2b "replace") (blen pre) (blen pre + blen form) [] :: rest) /\ Forall (fun nd : node => blen pre + blen form <= n_st nd) rest).
+Proof. exact find_powershell_replace_roundtrip. Qed.
+Print Assumptions C15_powershell_replace_roundtrip.
+
+(* decode-encode: hiding a byte string behind a token whose first byte does not occur in the payload is undone by the replacement *)
+Theorem C15_replace_inverse : forall (p c : list N) (t : N) (tok' : list N), c <> [] -> ~ In t p -> py_replace (py_replace p c (t :: tok')) (t :: tok') c = p.
+Proof. exact py_replace_inverse. Qed.
+Print Assumptions C15_replace_inverse.
+
+Theorem C15_replace_decodes : forall (pre : list N) (q : N) (p c : bytes) (t : N) (tok' suf : list N), let tok := t :: tok' in let x := py_replace p c tok in is_quote q -> lit_ok q p = true -> lit_ok q c = true -> lit_ok q tok = true -> c <> [] -> ~ In t p -> (Datatypes.length x + Datatypes.length tok + Datatypes.length c + 201 <= Backtrack.default_fuel)%nat -> neutral Regexes.RE_replace_REPLACE_RE pre = true -> let form := quoted q x ++ s2b ".replace(" ++ quoted q tok ++ s2b ", " ++ quoted q c ++ s2b ")" in let data := pre ++ form ++ suf in find_replace data = Hang \/ (exists rest : list node, find_replace data = Ok (Node (s2b "string") p (s2b "replace") (blen pre) (blen pre + blen form) [] :: rest) /\ Forall (fun nd : node => blen pre + blen form <= n_st nd) rest).
+Proof. exact find_replace_decodes. Qed.
+Print Assumptions C15_replace_decodes.
+
+(* a chain of n >= 2 literals (any mix of the admitted quotes / operators / blanks): one node spanning the whole chain, value = the concatenation *)
+Theorem C15_concat_roundtrip : forall (pre : list N) (q : N) (p : bytes) (js : list cpart) (suf : bytes), is_quote q -> part_ok p = true -> Forall cpart_ok js -> js <> [] -> concat_stop (last_q q js) suf = true -> (Datatypes.length (concat_form q p js) + Datatypes.length (take_wsu suf) + 150 <= Backtrack.default_fuel)%nat -> neutral Regexes.RE_concat_CONCAT_RE pre = true -> let form := concat_form q p js in let data := pre ++ form ++ suf in find_concat data = Hang \/ (exists rest : list node, find_concat data = Ok (Node (s2b "string") (concat_payload p js) (s2b "concatenation") (blen pre) (blen pre + blen form) [] :: rest) /\ Forall (fun nd : node => blen pre + blen form <= n_st nd) rest).
+Proof. exact find_concat_roundtrip. Qed.
+Print Assumptions C15_concat_roundtrip.
 
 Example C15_example :
   find_concat (L"x = 'ab' & 'cd' + 'e'") = Ok [Node (L"string") (L"abcde") (L"concatenation") 4 21 []]
